@@ -3,8 +3,8 @@
 1. Coq: Properties/C13.vo (models coq/Proto/Binary.v + TextCmds.v: binary frame dispatch, data-frame length handling,
    Redis-style text converters, ERROR_MSG lookup; panics are values). The model is parameterised by `fixes` booleans
    that this check derives from the *source text* of /repo on every run and writes to coq/Proto/SrcFlags.v, so the
-   universal theorems are stated for the repaired variant and the `C13_refuted_*` witnesses for today's code; the
-   theorem that talks about the *current* tree (`C13_current_*`) is selected by those flags.
+   universal theorems are stated for the repaired variant and the `C13_refuted_*` witnesses for the unrepaired one; the
+   theorems that talk about the *current* tree (`C13_*_current`) are selected by those flags.
 2. Correspondence of the pure model functions with the Go functions (ocaml/proto/modelrun vs. crashrun `pure` mode).
 3. Whole-server monitor (the property itself, evaluated on the REAL server): generated client byte streams (binary
    frames of every type with arbitrary fields + data frames of every length, every registered text command with 0..8
